@@ -35,6 +35,50 @@ CLAIMED = {
        "tick is the one verified under C10.",
   technique="Lean 4 proof (refinement of both runtimes to one fold; induction over histories) + trace correspondence",
   design="5 C11"),
+ "C03": dict(
+  text="Lean 4 theorems (FormakVerif.C03: unflatten_entry, jacobianFlat_get, entry_is_partial, sensor_by_name, stride_by_readings_is_wrong) prove for every "
+       "number of outputs, columns and stride that a Jacobian program flattened row-major over w columns and un-flattened with stride w holds at (i,j) "
+       "the value of the model's symbolic derivative d out_i / d wrt_j, in particular for the rectangular sensor Jacobian over states+calibration. "
+       "Tie: process/control/sensor Jacobians of compiled filters at dyadic points vs the Lean model (own Expr.diff, exact rationals) and vs an "
+       "independent oracle (sympy diff by name).",
+  note="Trusted: Lean kernel + standard axioms; harness; Expr.diff is validated against sympy diff per instance; binary64 rounding (1e-9).",
+  technique="Lean 4 proof (index arithmetic of flatten/un-flatten) + differential correspondence with rectangular shapes forced",
+  design="5 C03"),
+ "C04": dict(
+  text="Lean 4 theorems (FormakVerif.C04: predict_formula, symm_psd, noise_assembly, noise_psd) prove that the model's prediction covariance is "
+       "G P G^T + V M V^T as Mathlib matrices, that it is PSD for any Jacobians whenever P and M are, and that M is the diagonal matrix of the noise "
+       "supplied by control name. Tie: process_model on seeded definitions (0-3 controls, calibration, distinct noises) vs the Lean model and an exact "
+       "oracle; inputs snapshotted bitwise and the call repeated.",
+  note="Trusted: Lean kernel + standard axioms (Mathlib matrix theory); harness; binary64 rounding (1e-9).",
+  technique="Lean 4 proof (Mathlib PosSemidef algebra over Q) + differential correspondence + purity snapshots",
+  design="5 C04"),
+ "C05": dict(
+  text="Lean 4 theorems (FormakVerif.C05: update_formula, fixed_point, posterior_valid, cert_is_inverse, Q_diag, sensorUpdate_some) prove for every "
+       "number of readings and states that the model's update is x + K(z-h), P - K H P with S = H P H^T + Q, K = P H^T S^-1 (Mathlib inverse, via a "
+       "checked right-inverse certificate), records z-h and S, leaves x unchanged when z = h(x), and that the posterior is symmetric, PSD and <= prior "
+       "for PSD P and PD Q (Joseph form). Tie: sensor_model / recorded innovations / recorded S on seeded filters (1-3 readings) vs Lean model and "
+       "exact oracle.",
+  note="Trusted: Lean kernel + standard axioms; harness; numpy.linalg.inv outside the model; binary64 rounding (1e-9).",
+  technique="Lean 4 proof (Joseph form, Mathlib PosDef) + differential correspondence",
+  design="5 C05"),
+ "C06": dict(
+  text="Lean 4 theorems (FormakVerif.C06: sqrt_free, discard_iff, disabled_never, discard_identity, decision, nis_nonneg, same_decision) prove that the "
+       "model's square-root-free rational test is exactly NIS > k*sqrt(2m)+m over the reals for every k >= 0 and m, that disabled never discards, "
+       "that a discard returns state and covariance unchanged with the innovation recorded, and that the Python, C++-helper and generated-C++ "
+       "decision shapes coincide. Tie: remove_innovation, removeInnovation<m> (compiled from the working tree against the Eigen stand-in) and "
+       "sensor_model at and around the binary64 boundary (+-2 ulp) and on random SPD inputs vs the exact model and its binary64 instance.",
+  note="Trusted: Lean kernel + standard axioms (Mathlib Real.sqrt); harness; Eigen stand-in; decisions strictly inside the rounding band are "
+       "compared between implementations and with the binary64 instance, not with the real-number statement.",
+  technique="Lean 4 proof (sqrt elimination over R) + boundary-value differential correspondence of three implementations",
+  design="5 C06"),
+ "C09": dict(
+  text="Lean 4 theorem FormakVerif.C09.invariant proves by induction over any finite history of predictions (arbitrary, in particular singular, "
+       "Jacobians; PSD process noise) and updates (PD reading noise; accepted or rejected) that a PSD start covariance stays symmetric PSD in exact "
+       "arithmetic. Tie: exact one-step correspondence with process_model, then binary64 histories on the implementation (mass/z/v/a, generated "
+       "singular-Jacobian and regular bounded models): no refusal of a valid covariance, min eigenvalue and asymmetry within 1e-9 relative.",
+  note="Trusted: Lean kernel + standard axioms; harness. PSD-ness after binary64 rounding is measured, not proven (partial).",
+  technique="Lean 4 proof (invariant by induction over histories) + long-run float histories on the implementation",
+  design="5 C09"),
 }
 REASONS_TODO = "check not built yet in this round (see DESIGN.md section 10 build order); no claim is made"
 
